@@ -1360,7 +1360,7 @@ class Interp:
             if rdef == '<T as std::convert::Into<U>>::into':
                 # forwards to U::from(T); resolve a local impl when there is one
                 tgt = self.find_from_impl(t['dest']['ty'], t['args'][0].get('p', {}).get('ty'))
-                if tgt is not None:
+                if tgt is not None and (self.inline is None or self.inline(tgt, t)):
                     return self.push_frame(st, fr, tgt, args, dest, t['target'], site)
             return ('from', a0)
         if decl == 'std::result::Result::<T, E>::and_then' or decl == 'std::option::Option::<T>::and_then':
